@@ -338,7 +338,7 @@ func nsEvents(in []uint64) []nsEvent {
 			_ = cfg
 			nd := int(ev[p+1])
 			p += 2 + nd + 1
-		case 5, 6, 7, 8:
+		case 5, 6, 7, 8, 9:
 			p++
 		default:
 			return out
@@ -401,7 +401,7 @@ func c06monitor(cw *caseWriter) func(tag string, in, obs []uint64) {
 				if e.kind == 8 {
 					continue
 				}
-				nresp := map[uint64]int{1: 2, 2: 2, 3: 5, 4: 3, 5: 0, 6: 5}[e.kind]
+				nresp := map[uint64]int{1: 2, 2: 2, 3: 5, 4: 3, 5: 0, 6: 5, 9: 1}[e.kind]
 				resp = o[1 : 1+nresp]
 				p := skipTrace(o, 1+nresp)
 				next = o[p:]
